@@ -701,11 +701,11 @@ func List(r *core.Rand, max int, o Opts) []rtcp.Packet {
 	return out
 }
 
-// ManyBlocksXR draws an XR value of 16 382…65 000 small blocks (empty unknown blocks, empty DLRR
+// ManyBlocksXR draws an XR value of 16 382…32 769 small blocks (empty unknown blocks, empty DLRR
 // blocks, receiver reference times, the odd larger block) whose encoding fits the 16-bit length.
 func ManyBlocksXR(r *core.Rand) *rtcp.ExtendedReport {
 	x := &rtcp.ExtendedReport{SenderSSRC: r.B32()}
-	n := r.Pick(16382, 16383, 16384, 16385, 16400, 20000, 21845, 32767, 32768, 32769, 50000, 65000)
+	n := r.Pick(16382, 16383, 16384, 16385, 16400, 20000, 21845, 32767, 32768, 32769) // more blocks cost the monitors (several passes, one object per block) more than 10 CPU-seconds per case
 	size := 8
 	for i := 0; i < n && size < 262144-64; i++ {
 		var b rtcp.ReportBlock
